@@ -790,6 +790,10 @@ impl<T> MiniVec<T> {
   where
     T: 'a,
   {
+    if vec.is_default() {
+      return &mut [];
+    }
+
     let len = vec.len();
     let mut vec = core::mem::ManuallyDrop::new(vec);
     let vec: &mut MiniVec<T> = &mut *vec;
